@@ -3,12 +3,13 @@ import itertools, random
 from .common import Scenario, MAX
 
 ALL_SHAPES = ["One", "Two", "Flat4", "Heap", "DrH", "DrN", "DrP", "PlC", "NFirst", "NFirstF", "Hyg", "N2", "ZZ", "NMid", "NMidF",
-              "NLast", "NLastF", "Deep", "DeepF"]
+              "NLast", "NLastF", "Deep", "DeepF", "HygD0", "HygD1", "HygD2", "HygD3", "HygD4"]
 NOCLONE = set()   # (the Drop shapes had no Clone API before /repo 72750cf)
 DROP_SHAPES = ["DrH", "DrN", "DrNN", "DrP"]
 TWINS = [("NFirst", "NFirstF"), ("NMid", "NMidF"), ("NLast", "NLastF"), ("Deep", "DeepF")]
 NLEAVES = {"DrP": 2, "PlC": 2, "One": 1, "Two": 2, "Flat4": 4, "Heap": 2, "DrH": 2, "DrN": 3, "DrNN": 3, "NFirst": 3, "NFirstF": 3, "Hyg": 6, "N2": 4, "ZZ": 2,
-           "NMid": 4, "NMidF": 4, "NLast": 3, "NLastF": 3, "Deep": 5, "DeepF": 5}
+           "NMid": 4, "NMidF": 4, "NLast": 3, "NLastF": 3, "Deep": 5, "DeepF": 5,
+           "HygD0": 8, "HygD1": 8, "HygD2": 8, "HygD3": 8, "HygD4": 8}
 
 
 def tags(n, base=0):
